@@ -156,6 +156,7 @@ func TestC12(t *testing.T) {
 			vals[":s"] = model.NumSet(sameValue(rt, item["ns"].SS[0]))
 		}
 		ec := exprCase{Expr: expr, Item: item, Values: vals, API: rapid.IntRange(0, 9).Draw(rt, "api") == 0}
+		ec.Debug = ec.API && rapid.Bool().Draw(rt, "apiDebug")
 		_, ec.Values = pruneUnused(nil, ec.Values, ec.Expr)
 		pending("C12", "c07", ec)
 		info := &c07Info{}
